@@ -31,6 +31,12 @@ LAYOUTS = {
     # five files, one zip each (folder of zips with several unzip workers)
     # a raw folder whose data files happen to be called *.ZIP (upper case): a plain folder for the library
     "LZ": dict(files={"a": "a.ZIP", "b": "b.ZIP", "c": "c.ZIP"}, dirs={}, dirof={"a": ".", "b": ".", "c": "."}),
+    # hidden entries (dot-file, dot-folder): part of the source like everything else
+    "LH": dict(files={"a": ".version", "b": ".meta/index.json", "c": "c.txt"}, dirs={"m": ".meta"},
+               dirof={"a": ".", "b": "m", "c": "."}),
+    # a plain folder in which a MINORITY of the entries are zips (annotations.zip next to the samples): copied verbatim
+    "LM": dict(files={"a": "a.txt", "b": "b.txt", "c": "ann.zip", "e": "e.txt"}, dirs={},
+               dirof={"a": ".", "b": ".", "c": ".", "e": "."}),
     # five flat files (kappadata.copying.create_zips_folder only accepts files)
     "L5f": dict(files={"a": "a.txt", "b": "b.txt", "c": "c.txt", "d": "d.txt", "e": "e.txt"}, dirs={},
                 dirof={"a": ".", "b": ".", "c": ".", "d": ".", "e": "."}),
@@ -55,6 +61,10 @@ def scenarios(tier):
                         depth=(1 if nw <= 1 else 0)))
     # raw folder with upper-case .ZIP file names (classified and copied as a plain folder)
     res.append(dict(func="folder", fmt="raw", rel=None, init="absent", order="startfirst", layout="LZ", nw=0, depth=1))
+    # hidden entries; a minority of zip entries in a plain folder
+    res.append(dict(func="folder", fmt="raw", rel=None, init="absent", order="startfirst", layout="LH", nw=0, depth=1))
+    res.append(dict(func="folder", fmt="zip", rel=None, init="absent", order="startfirst", layout="LH", nw=0, depth=1))
+    res.append(dict(func="folder", fmt="raw", rel=None, init="absent", order="startfirst", layout="LM", nw=0, depth=1))
     # round trip through the library's own zip creation
     for func, layout in (("folder", "L5f"), ("imagefolder", "L2")):
         for nw in ((0,) if tier == "quick" else (0, 2)):
@@ -63,7 +73,7 @@ def scenarios(tier):
     if tier == "quick":
         keep = []
         for s in res:
-            if s["layout"] in ("L5", "L5f", "LZ") or s.get("via"):
+            if s["layout"] in ("L5", "L5f", "LZ", "LH", "LM") or s.get("via"):
                 keep.append(s)
                 continue
             if s["init"] != "absent":
